@@ -152,4 +152,29 @@ pub mod prelude {
     pub use super::{TlshGenerator, TlshGeneratorFor};
 }
 
+/// Verification hooks (`--cfg fast_tlsh_verif`): re-exports of internal
+/// stage functions and per-backend entry points.  Nothing here exists unless
+/// the crate is built with that `cfg`.
+#[cfg(fast_tlsh_verif)]
+pub mod verif {
+    pub use crate::compare::dist_body::verif as dist_body;
+    pub use crate::generate::bucket_aggregation::verif as bucket_aggregation;
+    pub use crate::generate::VerifGeneratorState;
+    /// Pearson hashing stage functions.
+    pub mod pearson {
+        pub use crate::pearson::{
+            final_256, final_48, init, tlsh_b_mapping_256, tlsh_b_mapping_48, update,
+            update_double,
+        };
+    }
+    /// Hexadecimal digit codec stage functions.
+    pub mod hex_str {
+        pub use crate::parse::hex_str::{decode_rev_1, decode_rev_array, encode_rev_1, encode_rev_array};
+        #[cfg(not(feature = "opt-simd-parse-hex"))]
+        pub use crate::parse::hex_str::{decode_1, decode_array};
+        #[cfg(not(feature = "opt-simd-convert-hex"))]
+        pub use crate::parse::hex_str::encode_array;
+    }
+}
+
 mod tests;
